@@ -163,8 +163,15 @@ func valueAlphabet(rng *rand.Rand) [][]byte {
 	rnd[rng.Intn(len(rnd))] = 0
 	long := make([]byte, 300+rng.Intn(700))
 	rng.Read(long)
+	// one sequence in three also uses a value larger than 64 KiB (a register holds arbitrary bytes: no
+	// backend may shorten, pad or re-encode them, whatever their length)
+	big := long
+	if rng.Intn(3) == 0 {
+		big = make([]byte, 65536+1+rng.Intn(3000))
+		rng.Read(big)
+	}
 	return [][]byte{
-		nil, {}, []byte("A"), []byte("B\x00C"), {0}, {0, 0}, rnd, long,
+		nil, {}, []byte("A"), []byte("B\x00C"), {0}, {0, 0}, rnd, long, big,
 		[]byte("example.com/log\n42\nq83AiY3+7HYm9Zl1ecrJCY+Dzyq1LpKJvYb6y2kv2Rw=\n\n— example.com/log Az3grlgtzPICa5OS8npVmf1Myq/5IZniMp+ZJurmRDeOoRDe4URYN7u5/Zhcyv2q1gGzGku9nTo+zyWE+xeMcTOAYQ8=\n"),
 		[]byte("\xff\xfe\x00\x80"),
 	}
